@@ -267,8 +267,14 @@ inline Capture*& ActiveCapture() { static Capture* c = nullptr; return c; }
 struct Log
 {
 	std::string ev;      // JSON array items, comma separated
+	std::string st;      // private cursor states of the scopes (friend projection), one item per public call on an object scope
 	void Add(const std::string& item) { if (!ev.empty()) ev += ','; ev += item; }
+	void AddState(const std::string& item) { if (st.size() > (1u << 20)) return; if (!st.empty()) st += ','; st += item; }
 };
+
+// Private cursor state of an archive scope as JSON members (a harness may provide a more specialised overload before this header is
+// included - scn_msgpack.cpp does for CMsgPackReadObjectScope through the BITSERIALIZER_VERIF friend); empty = nothing to project
+template <class TArchive> std::string ScopeStateJson(const TArchive&) { return std::string(); }
 
 // Scripted base classes: an op {"op":"base","ops":[...]} serializes BitSerializer::BaseObject<ScriptBase1>(*this), whose own
 // script may contain one more {"op":"base"} level (ScriptBase2).  Members of bases land in the same object scope.
@@ -299,12 +305,33 @@ template <class TArchive> void ScriptObj::Serialize(TArchive& archive) { RunObje
 template <class TArchive> void ScriptBase1::Serialize(TArchive& archive) { RunObjectOps(archive, *base1Ops, base1Log, this, 1); }
 template <class TArchive> void ScriptBase2::Serialize(TArchive& archive) { RunObjectOps(archive, *base2Ops, base2Log, this, 2); }
 
+// the key of an op in the notation of the specification: ["ks",[bytes]] | ["ki",n] | ["ku",n] | [] (no key)
+inline std::string OpKeyJson(const JVal& op)
+{
+	if (op.HasMember("ks")) return "[\"ks\"," + BytesJson(BytesFromJson(op["ks"])) + "]";
+	if (op.HasMember("ki")) return "[\"ki\"," + std::to_string(op["ki"].GetInt64()) + "]";
+	if (op.HasMember("ku")) return "[\"ku\"," + std::to_string(op["ku"].GetUint64()) + "]";
+	return "[]";
+}
+template <class TArchive>
+void LogScopeState(const TArchive& archive, Log* log, const std::string& kind, const std::string& keyJson)
+{
+	if constexpr (TArchive::IsLoading())
+	{
+		const std::string st = ScopeStateJson(archive);
+		if (!st.empty()) log->AddState("{\"op\":\"" + kind + "\",\"k\":" + keyJson + "," + st + "}");
+	}
+}
+
 template <class TArchive, class TSelf>
 void RunObjectOps(TArchive& archive, const JVal& opsArr, Log* log, TSelf* self, int level)
 {
+	if (level == 0) LogScopeState(archive, log, "enter", "[]");
 	for (const auto& op : opsArr.GetArray())
 	{
 		const std::string kind = op["op"].GetString();
+		struct StateAtExit { const TArchive& a; Log* l; const JVal& o; const std::string& k; bool armed = true;
+			~StateAtExit() { if (armed && std::uncaught_exceptions() == 0 && k != "base") LogScopeState(a, l, k, OpKeyJson(o)); } } stateAtExit{ archive, log, op, kind };
 		if (kind == "base")
 		{
 			if constexpr (std::is_same_v<TSelf, ScriptObj>) {
@@ -564,7 +591,8 @@ std::string RunLoad(const JVal& scn, const std::string& doc, const std::string& 
 		}
 	}
 	catch (...) { exc = DescribeException(); }
-	return "{\"medium\":\"" + medium + "\",\"ev\":[" + log.ev + "],\"exc\":" + exc + ",\"refused\":" + (refused ? "true" : "false") + "}";
+	return "{\"medium\":\"" + medium + "\",\"ev\":[" + log.ev + "],\"exc\":" + exc + ",\"refused\":" + (refused ? "true" : "false") +
+		(log.st.empty() ? std::string() : ",\"st\":[" + log.st + "]") + "}";
 }
 
 
